@@ -158,16 +158,11 @@ def _find_kernel_type() -> Dict[str, Any]:
 
 
 def pctg_vcs() -> List[core.VC]:
-    """tail of get_temporal_breakdown: every *_pctg column is round(100 * part / kernel_time, 2) of its own part (syntactic, from the AST)."""
+    """per-rank loop of get_temporal_breakdown: each collected list receives its own part of idle_time_per_rank(trace_df) (syntactic, from the AST);
+    the statements after the loop are executed in pctg_exec_vcs."""
     f = extract.get_function(BA, "BreakdownAnalysis.get_temporal_breakdown")
     src = ast.unparse(extract.stripped(f))
     want = {
-        'result_df["idle_time"] = result_df["idle_time(us)"] / result_df["kernel_time(us)"]',
-        'result_df["idle_time_pctg"] = round(100 * result_df["idle_time"], 2)',
-        'result_df["compute_time"] = result_df["compute_time(us)"] / result_df["kernel_time(us)"]',
-        'result_df["compute_time_pctg"] = round(100 * result_df["compute_time"], 2)',
-        'result_df["non_compute_time"] = result_df["non_compute_time(us)"] / result_df["kernel_time(us)"]',
-        'result_df["non_compute_time_pctg"] = round(100 * result_df["non_compute_time"], 2)',
         'result["idle_time(us)"].append(idle_time)', 'result["compute_time(us)"].append(compute_time)',
         'result["non_compute_time(us)"].append(non_compute_time)', 'result["kernel_time(us)"].append(kernel_time)',
         'idle_time, compute_time, non_compute_time, kernel_time = idle_time_per_rank(trace_df)',
@@ -176,7 +171,73 @@ def pctg_vcs() -> List[core.VC]:
     lines = {norm(l.strip()) for l in src.splitlines()}
     missing = sorted(w for w in want if w not in lines)
     return [core.VC(f"{PROP}.get_temporal_breakdown.percentage_tail", [], z3.BoolVal(not missing), "vc", [f.fq], {},
-                    note="each reported column is its own part (and its share of kernel_time x 100 rounded to 2); statements missing/changed: " + "; ".join(missing))]
+                    note="each collected list receives its own part of idle_time_per_rank(trace_df); statements missing/changed: " + "; ".join(missing))]
+
+
+def pctg_exec_vcs() -> List[core.VC]:
+    """The statements of get_temporal_breakdown AFTER the per-rank loop, executed relationally on a symbolic result frame
+    (one row per rank; the four `(us)` columns arbitrary reals with kernel_time > 0): every reported *_pctg cell is
+    round2(100 * its own part / kernel_time) of ITS row, the four `(us)` columns and `rank` come back as collected, no row is
+    added or lost. round(x, 2) is an uninterpreted function of the value (so `round(100 * x, 2)` and `round(x * 100, 2)` agree,
+    a different number of decimals or another part does not)."""
+    f = extract.get_function(BA, "BreakdownAnalysis.get_temporal_breakdown")
+    fq = [f.fq]
+    node = extract.stripped(f)
+    name = f"{PROP}.get_temporal_breakdown.tail"
+    loops = [i for i, st in enumerate(node.body) if isinstance(st, ast.For)]
+    if len(loops) != 1:
+        raise pyvc.Unsupported("get_temporal_breakdown: expected exactly one top-level loop (per rank)")
+    tail = node.body[loops[0] + 1:]
+    parts = {"idle_time": "idle_time(us)", "compute_time": "compute_time(us)", "non_compute_time": "non_compute_time(us)"}
+    cols = {"rank": (z3.IntSort(), False, "int"), "kernel_time(us)": (z3.RealSort(), False, "float")}
+    for c in parts.values():
+        cols[c] = (z3.RealSort(), False, "float")
+    df = fv.SymDF.base("collected", cols)
+    pres0, cols0 = df.present, dict(df.cols)
+    round_fn = z3.Function("round_to", z3.RealSort(), z3.IntSort(), z3.RealSort())
+
+    @pyvc.intrinsic
+    def _round(exq, pc, env, args, kwargs):
+        x = args[0]
+        nd = args[1] if len(args) > 1 else kwargs.get("ndigits", 0)
+        if isinstance(x, fv.SymSeries):
+            v = x.col.val
+            return x._mk(lambda r: round_fn(z3.ToReal(to_z3(v(r))) if to_z3(v(r)).sort() == z3.IntSort() else to_z3(v(r)), to_z3(nd)), x.col.null, "float")
+        raise pyvc.Unsupported("round() of something else than a column")
+
+    @pyvc.intrinsic
+    def _mkdf(exq, pc, env, args, kwargs):
+        if len(args) != 1 or args[0] is not collected or kwargs:
+            raise pyvc.Unsupported("pd.DataFrame(...) of something else than the collected per-rank lists")
+        return df
+
+    collected = pyvc.Opaque("per-rank lists")
+    ex = pyvc.Exec(consts=extract.module_constants(BA), name=name)
+    fv.install(ex)
+    ex.intrinsics["round"] = _round
+    ex.consts["pd"] = pyvc.Namespace("pd", {"DataFrame": _mkdf})
+    outs = ex.exec_block(tail, [], {"result": collected, "visualize": False, "t": pyvc.Opaque("trace"), "cls": pyvc.Opaque("cls")})
+    rets = [o for o in outs if o.kind == "ret"]
+    if len(outs) != 1 or len(rets) != 1 or not isinstance(rets[0].value, fv.SymDF) or rets[0].value.uni is not df.uni:
+        raise pyvc.Unsupported("get_temporal_breakdown tail: not exactly one returning path with a frame over the collected rows")
+    out = rets[0].value
+    vcs = [core.VC(pv.name, pv.hyps, pv.goal, "vc", fq, {}, note=pv.note) for pv in ex.vcs]
+    r = df.uni.skolem("r")
+    facts = [to_z3(x) for x in ex.facts]
+    kt = to_z3(cols0["kernel_time(us)"].val(r))
+    hyp = facts + [to_z3(pres0(r)), kt > 0]
+    vcs.append(core.VC(f"{name}.rows", facts, to_z3(out.present(r)) == to_z3(pres0(r)), "vc", fq, {"row": r[0]}, note="one row per rank: none added, none lost"))
+    want_cols = ["rank", "kernel_time(us)"] + list(parts.values()) + [p + "_pctg" for p in parts]
+    vcs.append(core.VC(f"{name}.columns", [], z3.BoolVal(all(c in out.cols for c in want_cols)), "vc", fq, {}, note=f"reported columns {list(out.cols)}"))
+    if all(c in out.cols for c in want_cols):
+        for c in ["rank", "kernel_time(us)"] + list(parts.values()):
+            vcs.append(core.VC(f"{name}.passes_through.{c}", hyp, to_z3(out.cols[c].val(r)) == to_z3(cols0[c].val(r)), "vc", fq, {"row": r[0]}, note=f"`{c}` is reported as collected"))
+        for pname, src in parts.items():
+            mv = {"row": r[0], "part": to_z3(cols0[src].val(r)), "kernel_time": kt, "reported": to_z3(out.cols[pname + "_pctg"].val(r))}
+            vcs.append(core.VC(f"{name}.{pname}_pctg", hyp, to_z3(out.cols[pname + "_pctg"].val(r)) == round_fn(100 * to_z3(cols0[src].val(r)) / kt, 2), "vc", fq, mv,
+                               note=f"{pname}_pctg = round(100 * {src} / kernel_time(us), 2) of the same row"))
+    vcs.append(core.VC(f"{name}.vacuity", hyp, z3.BoolVal(False), "vacuity", fq, {}))
+    return vcs
 
 
 # ---------------------------------------------------------------------------------------------- bounded
@@ -293,7 +354,8 @@ def units(ctx):
             core.Unit(f"{PROP}.merge_kernel_intervals.stale_helper_columns", lambda: mc.merge_vcs(PROP, stale=True), [UT + ".merge_kernel_intervals"]),
             core.Unit(f"{PROP}.get_idle_time_for_kernels", idle_for_kernels_vcs, [BA + ".BreakdownAnalysis._get_idle_time_for_kernels"]),
             core.Unit(f"{PROP}.idle_time_per_rank", per_rank_vcs, [BA + ".BreakdownAnalysis.get_temporal_breakdown.idle_time_per_rank"]),
-            core.Unit(f"{PROP}.percentage_tail", pctg_vcs, [BA + ".BreakdownAnalysis.get_temporal_breakdown"])]
+            core.Unit(f"{PROP}.percentage_tail", pctg_vcs, [BA + ".BreakdownAnalysis.get_temporal_breakdown"]),
+            core.Unit(f"{PROP}.percentage_tail_executed", pctg_exec_vcs, [BA + ".BreakdownAnalysis.get_temporal_breakdown"])]
 
 
 SPEC = Spec(
